@@ -464,6 +464,125 @@ def w_singletons(task):
     return acc
 
 
+# ------------------------------------------------------------------ histories on the front ends (hidden caches / memo keys)
+def collide_pool(tag, n):
+    """bit strings that collide under careless cache keys: same zero-padded octets but different lengths, and the same string
+    with the other storage order"""
+    x = "1" + env.det_bits(f"c05-collide-{tag}-{n}", n - 1)
+    pad = (-len(x)) % 8 or 8
+    return [x, x + "0", x + "0" * pad, x[:-1] if x.endswith("0") else x + "00", "1", "10"]
+
+
+def w_frontend_histories(task):
+    name, seqs, pool = task
+    acc = Acc()
+    for seq in seqs:
+        case = {"op": "front_end_history", "front_end": name, "inputs": [pool[i] for i in seq]}
+        try:
+            for k, i in enumerate(seq):
+                bits = pool[i]
+                for endian in ("big", "little"):
+                    b = bitarray(bits, endian=endian)
+                    if name == "CRC8.calculate":
+                        got, want = CRC8.calculate(b), def_crc8(bits)
+                        ok2 = CRC8.check(bitarray(bits, endian=endian), want)
+                    elif name == "CRC9.calculate":
+                        got, want = CRC9.calculate(b, CrcMasks.Rate34DataContinuation), def_crc9_bits(bits, MASK_TABLE["Rate34DataContinuation"])
+                        ok2 = True
+                    else:
+                        data = bitarray(bits + "0" * ((-len(bits)) % 8)).tobytes()
+                        if name == "CRC16.calculate":
+                            got, want = CRC16.calculate(data, CrcMasks.CSBK), def_crc16(data, MASK_TABLE["CSBK"])
+                            ok2 = CRC16.check(data, want, CrcMasks.CSBK)
+                        else:
+                            got, want = CRC32.calculate(data), def_crc32(data)
+                            ok2 = CRC32.check(data, want)
+                    if got != want or not ok2:
+                        acc.violation(f"front_end_result_depends_on_earlier_calls:{name}", {**case, "call": k, "endian": endian, "got": got, "want": want, "check_accepts": bool(ok2)},
+                                      "a front-end calculation in a call sequence is not the defined CRC of its own input (stale / shared state)")
+                        raise StopIteration
+        except StopIteration:
+            pass
+        except Exception as e:
+            acc.violation("exception_front_end_history:" + exc_sig(e), case, repr(e))
+        acc.case(nontrivial=True, calls=4 * len(seq), outcome=(name, seq[0]), sample=case if len(acc.samples) < 1 else None)
+    return acc
+
+
+def solve_tail(f, nbits, target):
+    """find t (nbits wide) with f(t) == target for an affine-over-GF(2) f (Gaussian elimination on the 2^k basis); None if impossible"""
+    f0 = f(0)
+    cols = [f(1 << i) ^ f0 for i in range(nbits)]
+    want = target ^ f0
+    # eliminate
+    rows = []  # (value, combination)
+    for i, c in enumerate(cols):
+        comb = 1 << i
+        for v, cm in rows:
+            if c ^ v < c:
+                c ^= v
+                comb ^= cm
+        if c:
+            rows.append((c, comb))
+            rows.sort(reverse=True)
+    t = 0
+    for v, cm in rows:
+        if want ^ v < want:
+            want ^= v
+            t ^= cm
+    return t if want == 0 else None
+
+
+def w_extreme_values(task):
+    """messages whose defined CRC is all-zeros or all-ones: calculate must return it and check must accept exactly it"""
+    acc = Acc()
+    for name, mname, head, target in task:
+        case = {"op": "extreme_crc_value", "front_end": name, "mask": mname, "target": hex(target)}
+        try:
+            if name == "CRC16":
+                f = lambda t: def_crc16(head + t.to_bytes(2, "big"), MASK_TABLE[mname])  # noqa: E731
+                t = solve_tail(f, 16, target)
+                data = head + t.to_bytes(2, "big")
+                got = CRC16.calculate(data, CrcMasks[mname])
+                acc_ok = CRC16.check(data, target, CrcMasks[mname])
+                rej = [v for v in (target ^ 1, target ^ 0x8000, (~target) & 0xFFFF) if CRC16.check(data, v, CrcMasks[mname])]
+                case["data"] = data.hex()
+            elif name == "CRC8":
+                f = lambda t: def_crc8(head + format(t, "08b"))  # noqa: E731
+                t = solve_tail(f, 8, target)
+                bits = head + format(t, "08b")
+                got = CRC8.calculate(bitarray(bits))
+                acc_ok = CRC8.check(bitarray(bits), target)
+                rej = [v for v in (target ^ 1, target ^ 0x80) if CRC8.check(bitarray(bits), v)]
+                case["bits"] = bits
+            elif name == "CRC9":
+                f = lambda t: def_crc9_parts(head + t.to_bytes(2, "big"), 5, MASK_TABLE[mname], None)  # noqa: E731
+                t = solve_tail(f, 16, target)
+                data = head + t.to_bytes(2, "big")
+                got = CRC9.calculate_from_parts(data, 5, CrcMasks[mname])
+                acc_ok = CRC9.check(data, 5, target, CrcMasks[mname])
+                rej = [v for v in (target ^ 1, target ^ 0x100) if CRC9.check(data, 5, v, CrcMasks[mname])]
+                case["data"] = data.hex()
+            else:
+                f = lambda t: def_crc32(head + t.to_bytes(4, "big"))  # noqa: E731
+                t = solve_tail(f, 32, target)
+                data = head + t.to_bytes(4, "big")
+                got = CRC32.calculate(data)
+                acc_ok = CRC32.check(data, target)
+                rej = [v for v in (target ^ 1, target ^ 0x80000000) if CRC32.check(data, v)]
+                case["data"] = data.hex()
+            if got != target:
+                acc.violation(f"extreme_value_not_computed:{name}", {**case, "got": hex(got)}, "front end does not return the defined CRC for a message whose CRC is all-zeros / all-ones")
+            if not acc_ok:
+                acc.violation(f"extreme_value_rejected_by_check:{name}", case, "check() rejects the defined CRC when it is all-zeros / all-ones")
+            if rej:
+                acc.violation(f"check_accepts_neighbour_of_extreme_value:{name}", {**case, "accepted": [hex(v) for v in rej]})
+        except Exception as e:
+            acc.violation("exception_extreme_value:" + exc_sig(e), case, repr(e))
+        acc.case(nontrivial=True, calls=5, outcome=(name, target == 0), sample=case if len(acc.samples) < 1 else None)
+    return acc
+
+
 # ------------------------------------------------------------------ detection corollaries
 def w_ccitt_weight3(task):
     """96-bit PDU = 80 data bits || 16-bit check field; all error patterns of the given first position"""
@@ -675,6 +794,48 @@ def run(only=None):
                 tasks.append((name, w, pool, ch))
         s.declared = 4 * 125
         for acc in par.pmap(w_singletons, tasks, nw):
+            s.merge(acc)
+        s.done()
+
+    if want("front_end_call_histories"):
+        s = rep.sub("front_end_call_histories",
+                    "CRC8 / CRC9 / CRC16 / CRC32 front ends: all 6^3 ordered sequences of three calls over a pool of inputs that share "
+                    "zero-padded octets but differ in length (x, x0, x0.., shortened, '1', '10'), each as big- and little-endian bitarray: "
+                    "every call returns the defined CRC of its own input and check() accepts it")
+        tasks = []
+        for name, n in (("CRC8.calculate", 28), ("CRC9.calculate", 87), ("CRC16.calculate", 75), ("CRC32.calculate", 131)):
+            pool = collide_pool(name, n)
+            seqs = list(itertools.product(range(len(pool)), repeat=3))
+            for ch in par.split_list(seqs, 8):
+                tasks.append((name, ch, pool))
+        s.declared = 4 * 216
+        for acc in par.pmap(w_frontend_histories, tasks, nw):
+            s.merge(acc)
+        s.done()
+
+    if want("extreme_crc_values"):
+        s = rep.sub("extreme_crc_values",
+                    "messages constructed (GF(2) linear solve on the reference) so that the defined CRC is exactly all-zeros / all-ones: "
+                    "CRC16 x the 5 sixteen-bit masks x 3 heads, CRC8, CRC9 x 3 masks, CRC32; calculate returns it, check accepts it and rejects its neighbours")
+        cases = []
+        for mname in MASK_TABLE:
+            if mname not in ("PiHeader", "CSBK", "MBCHeader", "DataHeader", "UnifiedSingleBlockData"):
+                continue  # the 16-bit masks
+            for hi_, head in enumerate((bytes(8), env.det_bytes("c05-ext-16a", 8), env.det_bytes("c05-ext-16b", 12))):
+                for target in (0x0000, 0xFFFF):
+                    cases.append(("CRC16", mname, head, target))
+        for head in ("0" * 20, "1" + env.det_bits("c05-ext-8", 19)):
+            for target in (0x00, 0xFF):
+                cases.append(("CRC8", "-", head, target))
+        for mname in ("Rate12DataContinuation", "Rate34DataContinuation", "Rate1DataContinuation"):
+            for head in (bytes(8), env.det_bytes("c05-ext-9", 14)):
+                for target in (0x000, 0x1FF):
+                    cases.append(("CRC9", mname, head, target))
+        for head in (bytes(6), env.det_bytes("c05-ext-32", 12)):
+            for target in (0x00000000, 0xFFFFFFFF):
+                cases.append(("CRC32", "-", head, target))
+        s.declared = len(cases)
+        for acc in par.pmap(w_extreme_values, par.split_list(cases, 16), nw):
             s.merge(acc)
         s.done()
 
